@@ -57,6 +57,13 @@ def declared_set(rng, observable=False, env_prob=0.0, nopts=None, nargs=None):
                 decls.append(mkopt("custom", name, custom=dict(CUSTOM_FLAG), env=env, sbu=True))
             else:
                 decls.append(mkopt("bool", name, env=env, **{"def": ["false"]}))
+        elif rng.random() < 0.15:
+            # a valued option of a user-defined type (it records the strings it is given); half of these types have
+            # an IsBoolFlag() method that answers false, which still makes them valued options
+            cu = dict(CUSTOM_MULTI)
+            if rng.random() < 0.5:
+                cu.update(isbool=True, isboolfalse=True)
+            decls.append(mkopt("custom", name, custom=cu, env=env, sbu=True))
         else:
             decls.append(mkopt("strings" if observable or rng.random() < 0.5 else "string", name, env=env,
                                **{"def": [] if observable else ["d"]}))
@@ -502,14 +509,17 @@ def gen_hook(rng, absent=0.25):
     if r < 0.8:
         # a third of the panics are genuine Go run-time errors (index out of range) rather than explicit panics
         return {"k": "panic", "v": rng.randint(1, 9), "rt": rng.random() < 0.33}
-    return {"k": "exit", "n": rng.choice([0, 1, 3, 7, 255])}
+    # any int is a legal exit status for cli.Exit: negative ones, and ones beyond a byte, too
+    return {"k": "exit", "n": rng.choice([0, 1, 3, 7, 255, -1, -2, 256, -255, 2147483647, -2147483648])}
 
 
 def hook_assignments(depth):
     """every assignment of {absent, returns, panics, exits, fails with a run-time error} to the 2*depth+1 callbacks of a path"""
     kinds = [None, {"k": "ret"}, {"k": "panic", "v": 5}, {"k": "exit", "n": 3}, {"k": "panic", "v": 6, "rt": True}]
+    if depth <= 2:
+        kinds.append({"k": "exit", "n": -1})      # a negative status (a sixth kind, for the short paths)
     n = 2 * depth + 1
-    for combo in itertools.product(range(5), repeat=n):
+    for combo in itertools.product(range(len(kinds)), repeat=n):
         yield [kinds[i] for i in combo]
 
 
